@@ -24,6 +24,8 @@ pub enum Wrap {
 pub enum PollKind {
     Poll,
     PollNext,
+    /// poll_next that yields an item (Ready(Some)) when not `ready`
+    PollNextItem,
     PollReady,
     StartSend,
     PollFlush,
